@@ -1,28 +1,33 @@
 """translator items for C13 (PSD normalisation, frequency axes, band-limited RMS, synthetic-surface RMS).
 
-Reads prysm/interferogram.py (psd, bandlimited_rms, render_synthetic_surface, Interferogram.psd /
-bandlimited_rms), prysm/util.py (rms), prysm/coordinates.py (broadcast_1d_to_2d) of the CURRENT tree and
-emits the glue where the defects live:
+Reads prysm/interferogram.py (psd, make_window signature, bandlimited_rms, render_synthetic_surface, Interferogram.psd /
+bandlimited_rms / total_integrated_scatter / render_from_psd), prysm/fttools.py (forward_ft_unit), prysm/util.py (rms),
+prysm/coordinates.py (broadcast_1d_to_2d, cart_to_polar), prysm/_richdata.py (RichData.r) of the CURRENT tree and emits the
+glue where the defects live:
 
-  psdPreRot / psdPostRot      rotation kinds around fft2 in `psd`
-  psdCoef                     `coef = S2*fs*fs`, `fs = 1/dx` as a generic-scalar function
-  psdUxShapeAxis/UyShapeAxis  which `height.shape[k]` feeds which returned frequency axis
-  brmsCentre                  the reference index `s//2`
-  brmsIntegrations, brmsIntAxis, brmsStepAxis, brmsStepLag
+  psd(): by LAST-DEFINITION DATAFLOW (`_SSA`: the function body is executed symbolically by substitution, so rebinding
+  `psd = psd * 2`, `/=`, reordering of independent statements and renaming of locals are all followed):
+    psdPreRot / psdPostRot      rotation kinds around fft2 in what is RETURNED
+    psdPower                    the returned power as a function of P = |spectrum|^2, S2 = sum(window^2), dx
+    psdWindowSameInTransformAndS2, psdWindowMadeForHeightFromWindowArgument, psdPowerIsSquaredModulus   (three-valued facts)
+    psdUxShapeAxis/UyShapeAxis, psdUx/UyBroadcastSlot   which `height.shape[k]` / which broadcast output feeds which returned axis
+  axisRot, axisFftfreqCountThenSpacing   fttools.forward_ft_unit = rot(fftfreq(samples, dx))
+  brmsCentre, brmsIntegrations, brmsIntAxis, brmsStepAxis, brmsStepLag
                               for each integration call of the 2-D path of `bandlimited_rms`: the axis= it
-                              reduces, and along which array axis (and over how many samples) the step
-                              `dx=` handed to it was measured
+                              reduces, and along which array axis (and at which lag from the centre) the step was measured
+  brmsCentre1D, brmsStepLag1D the same for the 1-D branch (`r.ndim != 2`)
   brmsLowCmp / brmsHighCmp    comparison kinds of the band mask
   brmsIntegratorPortable      the integrator is looked up as `trapezoid`, falling back to `trapz`
-  brmsBand*                   the band (flow, fhigh) that each way of calling bandlimited_rms ends up with
-                              (periods / frequencies, one-sided / two-sided), by symbolic execution of the
-                              argument handling
-  synthScale / synthRescale   `scale_factor = rms / z_rms`, `z *= scale_factor`
+  brmsReturnsSqrtOfIntegralOfACopy
+  brmsBand*                   the band (flow, fhigh) that each way of calling bandlimited_rms ends up with (periods /
+                              frequencies, one-sided / two-sided / one edge of each kind), by symbolic execution of the
+                              argument handling; brmsNoBandGivenRaisesValueError for the empty call
+  synthRescale                the rescale of the surface as a function of (rho, measured rms, z), local names followed
   ifgPsdDx                    the `dx` that Interferogram.psd() stores on the spectrum
-  + structural facts
+  + structural facts (THREE-VALUED: True = recognised and right, False = recognised and wrong, None = shape not recognised;
+    arguments of calls are bound by name or position, locals may be renamed, np.abs = abs, ...)
 
-Every item works on the pinned and on the repaired source shapes and degrades to `untranslatable`
-(fallback = the hand model) on shapes it does not know.
+Every item degrades to `untranslatable` (fallback = the hand model; reported as TIE-DEGRADED) on shapes it does not know.
 """
 import ast
 from pyexpr2lean import (Gen, Tr, Untranslatable, load, get_def, find_assign, find_assigns, find_returns,
